@@ -237,6 +237,24 @@ func pipeGen(r *Rand, tier string) []string {
 			}
 			ins = append(ins, genLines(r, ln))
 		}
+		if i%40 == 7 {
+			// inputs larger than the 128 KiB read-ahead buffer, fixed-width lines so that a newline falls on
+			// the last byte of a full buffer (and a few that do not)
+			w := Pick(r, []int{8, 16, 32, 64, 17, 100})
+			total := 131072*Pick(r, []int{1, 2, 3}) + Pick(r, []int{0, 16, 4096, 70000})
+			var sb bytes.Buffer
+			for k := 0; sb.Len() < total; k++ {
+				l := fmt.Sprintf("%0*d", w-1, k)
+				if k%5 == 3 {
+					l = "x" + l[1:]
+				}
+				sb.WriteString(l + "\n")
+			}
+			ins = [][]byte{sb.Bytes()}
+			if mode == "files" && r.Chance(1, 2) {
+				ins = append(ins, genLines(r, 50))
+			}
+		}
 		batch := Pick(r, []int{1, 1, 2, 3, 7, 1000})
 		workers := Pick(r, []int{1, 1, 2, 3, 4, 8})
 		readers := Pick(r, []int{1, 1, 2, 3, 4})
